@@ -204,6 +204,10 @@ func runUniform(seed int64, langs []int, cls string) {
 	}
 }
 
+// stopTails: ill-formed UTF-8 (lone byte, truncated sequences, surrogate half, overlong), NUL and the invisible / line-ending code
+// points at which a hand-written or library tokenizer may stop reading
+var stopTails = []string{"\xff", "\xc3", "\xed\xa0\x80", "\x80", "\xf0\x9f\x98", "\xe3\x80", "\xc0\xaf", "\x00", "\ufeff", "\u200b", "\r", "\v", "\u0085", "\u2028", "\ufffd"}
+
 var otherSeps = []string{"\t", "\n", "  ", "\u00a0", "\u3000", "\u2003", "\u2009", "\u202f", "\u0085", "\u2028", ",", "-", ""}
 
 // runMutations: classes of damaged sentences derived from valid ones (C03, C15)
@@ -326,6 +330,17 @@ func runMutations(tier string, seed int64, langs []int, fullSubst bool) {
 					c = append(c[:p], append([]byte{0xC3}, c[p:]...)...)
 				}
 				chk(string(c), "fuzz")
+			}
+			// a valid sentence followed, without a separator, by something a decoder, scanner or validator could stop at
+			// - and then by anything at all; the same thing in front of it (seeded change C03l: partial output of a failed transform)
+			for t := 0; t < 5; t++ {
+				tail := stopTails[(size/4+lang*5+t)%len(stopTails)]
+				chk(s0+tail, "tail")
+				chk(s0+tail+" "+goldenWords[lang][r.intn(2048)]+" "+goldenWords[lang][r.intn(2048)], "tail")
+				if t < 2 {
+					chk(tail+s0, "tail")
+					chk(sentence(idx[:w/2], lang, " ")+tail+" "+sentence(idx[w/2:], lang, " "), "tail")
+				}
 			}
 			chk("", "empty")
 			chk(string(r.bytes(40)), "fuzz")
